@@ -1,4 +1,5 @@
-(* HelpWins.v -- C10 for definitions without subcommands and adjacent groups: if the help flag stands on the
+(* HelpWins.v -- C10 for definitions without subcommands (adjacent groups, also nested, are members since a failed
+   group hands its caller's scope back: AdjTotal.adjacent_inscope): if the help flag stands on the
    line as an item of its own (and no item of the parser uses its names), the outcome is the help of this
    level -- whatever else is missing, duplicated or malformed.
    Why: (1) only subcommands produce a ready-made failure, so the parser's own error never pre-empts the
